@@ -37,6 +37,7 @@ def chunk_specs(draw, thorough):
         ch["group"] = draw(st.sampled_from([10, 10, 0]))
         ch["gapchar"] = draw(st.sampled_from([".", "-", "~"]))
         ch["pileup"] = draw(st.booleans())
+        ch["ruler"] = draw(st.booleans())
     else:
         ch["width"] = draw(st.sampled_from([60, 60, 50, 13]))
         ch["cons"] = draw(st.booleans())
